@@ -1,10 +1,16 @@
 """C12 — HOD staging keeps every per-halo attribute on the same row (DESIGN.md §7 C12).
 
-Tie in two forms:
-  * translator `extract(ctx)`: parses `AbacusHOD.staging` / `_searchsorted_parallel` of /repo's working tree with
-    `ast` and regenerates lean/AbacusVerif/Generated/StagingCols.lean (per-halo arrays allocated / filled per slab /
-    returned in `halo_data`, each with its guarding `want_*` flag, and the arrays the sort block permutes by
-    `sortind`).  The property theorems are stated over those lists and the model driver runs with them.
+Tie in three forms:
+  * dynamic extractor (primary, `extract(ctx)` -> `observe_tables`): the real `AbacusHOD.__init__` / `staging` of the
+    working tree is run on probe subsample files in which every dataset column carries its own injective values,
+    once per subset of the want_* flags; for every returned array the one expression over the dataset columns
+    (column, a/b, a*params[p], 1/a/b, column-or-zeros, constant ones) and the row order (file / id order) that
+    reproduce it are recorded, with the order of the ids, the searchsorted side and the treatment of 1-D velocity
+    deviates.  These tables are written to lean/AbacusVerif/Generated/StagingCols.lean (part 1); the property
+    theorems are stated over them and the model driver runs with them.  Independent of how the source is written.
+  * optional `ast` reading of `AbacusHOD.staging` / `_searchsorted_parallel` (part 2 of the generated file): only
+    adds obligations when it can interpret the text (allocated/filled tables, agreement with the observation);
+    when it cannot, evidence `staging_ast_translator: unavailable (<reason>)` and no tie.
   * correspondence + independent oracle on the real `AbacusHOD(...)` object's staging output for synthetic
     subsample file sets (harness/stagegen.py) in which every attribute encodes its halo's id injectively.
 """
@@ -24,8 +30,10 @@ import stagegen as sg
 import vcommon
 
 THEOREMS = [
+    'AbacusVerif.Staging.observed_complete',
     'AbacusVerif.Staging.returned_cols_permuted',
     'AbacusVerif.Staging.returned_cols_filled',
+    'AbacusVerif.Staging.ast_agrees_with_observed',
     'AbacusVerif.Staging.returned_cols_single_source',
     'AbacusVerif.Staging.part_cols_single_source',
     'AbacusVerif.Staging.sources_as_documented',
@@ -56,7 +64,9 @@ TRUSTED = ['harness/stagegen.py: the synthetic h5/asdf writer and the injective 
            'regenerated from staging() (Generated/StagingCols.lean haloSources / partSources); the *oracle* decodes each returned array '
            'with the documented meaning (x_L2com->hpos, v_L2com->hvel, N*Mpart->hmass, multi_halos, randoms, '
            'randoms_gaus_vrms|randoms_exp->hveldev, sigmav3d_L2com, r98/r25->hc, r98->hrvir, deltac_rank, fenv_rank, shear_rank)',
-           'the ast translator of staging() in harness/props/c12.py (strict: any statement of the sort block it does not recognise breaks the tie)',
+           'the dynamic extractor in harness/props/c12.py: tables observed on probe files (2 slabs, 5 halos, 8 particles, ids not sorted) '
+           'for each of the 16 flag subsets; an array is explained by a finite grammar of expressions over the dataset columns; '
+           'the optional ast reading of staging() only adds obligations when it can interpret the text',
            'h5py, asdf; numpy argsort / searchsorted / fancy indexing / slice assignment modelled by specification',
            'halo ids are duplicate-free (numpy argsort is not stable; the property quantifies over duplicate-free ids)']
 ASSUMPTIONS = ['ids and particle serials < 2^20 so that every float32 field of the synthetic files is exact',
@@ -458,6 +468,8 @@ def _lean_src(src):
         return '(.div %s %s)' % (_lean_src(src[1]), _lean_src(src[2]))
     if k == 'mulParam':
         return '(.mulParam %s %s)' % (_lean_src(src[1]), _lean_str(src[2]))
+    if k == 'invProd':
+        return '(.invProd %s %s)' % (_lean_src(src[1]), _lean_src(src[2]))
     raise ValueError(src)
 
 
@@ -473,183 +485,316 @@ def _lean_opt(c):
     return 'none' if c is None else '(some %s)' % _lean_str(c)
 
 
-def render_lean(T):
+FLAG_KEYS = [('want_AB', 'AB'), ('want_shear', 'shear'), ('want_ranks', 'ranks'), ('want_expvel', 'expvel')]
+FLAG_NAMES = [f for f, _ in FLAG_KEYS]
+PART_RANK_FIELDS = ['ranks', 'ranksv', 'ranksp', 'ranksr', 'ranksc']
+
+
+def all_flag_sets():
+    out = [[]]
+    for f in reversed(FLAG_NAMES):
+        out = out + [[f] + x for x in out]
+    return [[f for f in FLAG_NAMES if f in x] for x in out]
+
+
+# =========================================================================== dynamic extractor (primary tie)
+#
+# The tables of Generated/StagingCols.lean are *observed*: the real AbacusHOD.__init__/staging is run on probe file
+# sets in which every dataset column of every slab carries its own injective values (stagegen encodings: no two
+# columns agree on a row), once per flag subset, and for every returned array the harness finds the one expression
+# over the dataset columns (a column, a / b, a * params[p], 1 / a / b, a column or zeros, constant ones) and the row
+# order (file order or id order) that reproduces it.  Nothing here depends on how the source is written.
+
+PROBE_SLABS = [{'ids': [41, 17, 29], 'parts': [[7, 41], [3, 41], [11, 17], [2, 29], [9, 29]]},
+               {'ids': [8, 23], 'parts': [[5, 8], [1, 23], [6, 23]]}]
+
+
+def probe_case(flags, **kw):
+    c = base_case(nfiles=2, slabs=[{'ids': list(s['ids']), 'parts': [list(q) for q in s['parts']]} for s in PROBE_SLABS],
+                  rankfields=['ranksp', 'ranksr', 'ranksc'], kind='probe')
+    for f, k in FLAG_KEYS:
+        c[k] = int(f in flags)
+    c.update(kw)
+    return c
+
+
+def _concat(cols):
+    return np.concatenate([np.asarray(c, dtype=np.float64) for c in cols], axis=0)
+
+
+def _same(a, b):
+    a = np.asarray(a, dtype=np.float64)
+    b = np.asarray(b, dtype=np.float64)
+    return a.shape == b.shape and bool(np.allclose(a, b, rtol=1e-9, atol=0.0, equal_nan=False))
+
+
+def _candidates(fields, params, present):
+    """(src, column in file order) for every expression of the grammar over the concatenated dataset columns"""
+    names = [f for f in fields if f in present]
+    for f in names:
+        yield ('field', f), fields[f]
+    scal = [f for f in names if np.asarray(fields[f]).ndim == 1]
+    for f in names:
+        num = np.asarray(fields[f], dtype=np.float64)
+        for g in scal:
+            if g != f:
+                with np.errstate(all='ignore'):
+                    den = np.asarray(fields[g], dtype=np.float64)
+                    yield ('div', ('field', f), ('field', g)), (num / den if num.ndim == 1 else num / den[:, None])
+        for pname, pval in params:
+            yield ('mulParam', ('field', f), pname), num * pval
+    for i, f in enumerate(scal):
+        for g in scal[i + 1:]:
+            with np.errstate(all='ignore'):
+                yield ('invProd', ('field', f), ('field', g)), 1 / np.asarray(fields[f], dtype=np.float64) / np.asarray(fields[g], dtype=np.float64)
+
+
+def _explain(out, fields, params, present, perm):
+    """[(src, 'file'|'id')] that reproduce `out`"""
+    hits = []
+    out = np.asarray(out, dtype=np.float64)
+    for src, col in _candidates(fields, params, present):
+        col = np.asarray(col, dtype=np.float64)
+        if col.shape != out.shape:
+            continue
+        if perm is not None and _same(out, col[perm]):
+            hits.append((src, 'id'))
+        elif _same(out, col):
+            hits.append((src, 'file'))
+    return hits
+
+
+def observe_entry(ctx, flags, problems):
+    """run the real code on the probe of one flag subset; returns the entry dict or None"""
+    case = probe_case(flags)
+    res = run_impl(ctx, case)
+    if 'err' in res or 'skip' in res:
+        problems.append('probe %s: the real code raises %s %s' % (flags, res.get('err'), res.get('msg', '')))
+        return None
+    slabs = case['slabs']
+    ids = [i for s in slabs for i in s['ids']]
+    perm = np.argsort(np.array(ids))
+    hf = [sg.halo_fields(s['ids']) for s in slabs]
+    hfields = {f: _concat([h[f] for h in hf]) for f in hf[0]}
+    params = [(k, float(v)) for k, v in res['params'].items()
+              if isinstance(v, (int, float, np.integer, np.floating)) and not isinstance(v, bool) and k not in ('chunk', 'numslabs', 'z')]
+    ent = {'flags': flags, 'returned': list(res['halo']), 'permuted': [], 'halo_sources': [], 'part_sources': [],
+           'part_defaults': [], 'part_keys': list(res['part']), 'params': params, 'hid_order': None, 'search_side': None}
+    for k, arr in res['halo'].items():
+        hits = _explain(arr, hfields, params, set(hfields), perm)
+        if len(hits) != 1:
+            problems.append('probe %s: halo_data[%r] is reproduced by %d expressions over the dataset columns %s' % (
+                flags, k, len(hits), [h[0] for h in hits][:3]))
+            continue
+        src, order = hits[0]
+        ent['halo_sources'].append((k, src))
+        if order == 'id':
+            ent['permuted'].append(k)
+    hid = res['halo'].get('hid')
+    if hid is not None:
+        ent['hid_order'] = 'ascending' if [int(x) for x in hid] == sorted(ids) else 'other'
+    # particle side: file order
+    with_ranks = 'want_ranks' in flags
+    pf = [sg.part_fields(s['parts']) for s in slabs]
+    pfields = {f: _concat([q[f] for q in pf]) for f in pf[0]}
+    present = set(pfields) - (set() if with_ranks else set(PART_RANK_FIELDS))
+    res0 = None
+    if with_ranks:
+        r0 = run_impl(ctx, probe_case(flags, rankfields=[]))
+        res0 = None if ('err' in r0 or 'skip' in r0) else r0
+    n = len(pfields['halo_id'])
+    for k, arr in res['part'].items():
+        if k == 'pinds':
+            continue
+        if np.asarray(arr).shape == (n,) and np.all(np.asarray(arr) == 1.0):
+            ent['part_defaults'].append((k, 'ones'))
+            continue
+        hits = _explain(arr, pfields, params, present, None)
+        if len(hits) != 1:
+            problems.append('probe %s: particle_data[%r] is reproduced by %d expressions over the dataset columns %s' % (
+                flags, k, len(hits), [h[0] for h in hits][:3]))
+            continue
+        src = hits[0][0]
+        # a column the code replaces by zeros when the file lacks it
+        if src[0] == 'field' and src[1] in ('ranksp', 'ranksr', 'ranksc') and res0 is not None and k in res0['part'] \
+                and np.asarray(res0['part'][k]).shape == (n,) and np.all(np.asarray(res0['part'][k]) == 0.0):
+            src = ('fieldOrZeros', src[1])
+        ent['part_sources'].append((k, src))
+    # searchsorted side: every probe particle's host exists, so `left` gives the host's row and `right` the next one
+    if hid is not None and 'pinds' in res['part'] and 'phid' in res['part'] and ent['hid_order'] == 'ascending':
+        pin = [int(x) for x in res['part']['pinds']]
+        left = [int(np.searchsorted(hid, h, side='left')) for h in res['part']['phid']]
+        right = [int(np.searchsorted(hid, h, side='right')) for h in res['part']['phid']]
+        ent['search_side'] = 'left' if pin == left else 'right' if pin == right else 'other'
+    return ent
+
+
+def observe_veldev1d(ctx, problems):
+    """what the real code does with a 1-D velocity-deviate column"""
+    kinds = set()
+    for flags in ([], ['want_expvel']):
+        case = probe_case(flags, veldev1d=1)
+        res = run_impl(ctx, case)
+        if 'err' in res or 'skip' in res or 'hveldev' not in res['halo'] or 'hid' not in res['halo']:
+            kinds.add('raises')
+            continue
+        ids = [i for s in case['slabs'] for i in s['ids']]
+        v = _concat([sg.halo_fields(s['ids'], True)['randoms_exp' if flags else 'randoms_gaus_vrms'] for s in case['slabs']])
+        byid = dict(zip(ids, v))
+        want = np.array([[byid[int(i)]] * 3 for i in res['halo']['hid']])
+        kinds.add('stack-axis1' if _same(res['halo']['hveldev'], want) else 'unknown')
+    return kinds.pop() if len(kinds) == 1 else 'unknown'
+
+
+def observe_tables(ctx):
+    problems = []
+    entries = []
+    for flags in all_flag_sets():
+        e = observe_entry(ctx, flags, problems)
+        if e is not None:
+            entries.append(e)
+    D = {'entries': entries, 'problems': problems, 'veldev1d': observe_veldev1d(ctx, problems)}
+    orders = {e['hid_order'] for e in entries}
+    D['sort_key'] = 'hid' if orders == {'ascending'} else 'unknown'
+    sides = {e['search_side'] for e in entries if 'pinds' in e['part_keys']}
+    D['search_side'] = sides.pop() if len(sides) == 1 else 'other'
+    D['params'] = entries[0]['params'] if entries else []
+    return D
+
+
+# =========================================================================== rendering
+
+def _lean_list(items):
+    return '[' + ', '.join(items) + ']'
+
+
+def _lean_strs(l):
+    return _lean_list(_lean_str(x) for x in l)
+
+
+LEAN_TEMPLATE = (vcommon.VERIF / 'harness' / 'stagecols_template.lean')
+
+
+def render_lean(D, T, ast_reason):
     def pairs(tab):
         return '[' + ',\n   '.join('(%s, %s)' % (_lean_str(v), _lean_opt(c)) for (v, c) in tab) + ']'
 
     def triples(tab):
         return '[' + ',\n   '.join('(%s, %s, %s)' % (_lean_str(k), _lean_str(v), _lean_opt(c)) for (k, v, c) in tab) + ']'
 
-    def triples_g(tab):
-        return '[' + ',\n   '.join('(%s, %s, %s)' % (_lean_str(k), _lean_str(v), _lean_guard(_guard_of(c))) for (k, v, c) in tab) + ']'
-
-    def sources(tab):
+    def sources3(tab):
         return '[' + ',\n   '.join('(%s, %s, %s)' % (_lean_str(v), _lean_src(src), _lean_guard(g)) for (v, src, g) in tab) + ']'
 
-    flags = list(T['flags'])
-    for tab in ('halo_sources', 'part_sources'):
-        for (_, _, g) in T[tab]:
-            if g != ALWAYS and g[1] not in flags:
-                flags.append(g[1])
-    for tab in ('part_returned', 'part_defaults'):
-        for e in T[tab]:
-            g = _guard_of(e[-1])
-            if g != ALWAYS and g[1] not in flags:
-                flags.append(g[1])
-    return '''/-
-  GENERATED by harness/props/c12.py `extract` from abacusnbody/hod/abacus_hod.py (AbacusHOD.staging,
-  _searchsorted_parallel) of the current working tree, by parsing the source with Python's `ast`.
-  Do not edit: regenerated on every run of `./check C12`.
--/
-namespace AbacusVerif.Generated.StagingCols
+    def sources2(tab):
+        return _lean_list('(%s, %s)' % (_lean_str(v), _lean_src(src)) for (v, src) in tab)
 
-/-- an expression over the columns of one slab dataset (`maskedhalos[...]` / `subsample[...]`) -/
-inductive Src where
-  | field (name : String)                    -- `table['name']`
-  | asInt (a : Src)                          -- `a.astype(int)`
-  | div (a b : Src)                          -- `a / b`
-  | mulParam (a : Src) (param : String)      -- `a * params['param']`
-  | fieldOrZeros (name : String)             -- `table['name'] if 'name' in part_fields else np.zeros(len(table))`
-  deriving DecidableEq, Repr
-
-/-- the `self.want_*` flag a statement depends on -/
-inductive Guard where
-  | always
-  | ifFlag (flag : String)
-  | ifNot (flag : String)
-  deriving DecidableEq, Repr
-
-/-- every entry of the returned `halo_data`: (key, local array, guarding `self.want_*` flag) -/
-def returned : List (String × String × Option String) :=
-  %s
-
-/-- every `X = X[sortind]` statement of the sort block: (array, guarding flag) -/
-def permuted : List (String × Option String) :=
-  %s
-
-/-- per-halo arrays allocated with `np.empty(… Nhalos_tot …)` -/
-def allocated : List (String × Option String) :=
-  %s
-
-/-- arrays filled slab by slab, `X[halo_ticker : halo_ticker + Nhalos[eslab - start]] = …` -/
-def filled : List (String × Option String) :=
-  %s
-
-/-- what each per-halo array is filled from: (array, expression over the columns of the slab's `halos`
-dataset, flag) — one entry per fill statement and flag value -/
-def haloSources : List (String × Src × Guard) :=
-  %s
-
-/-- per-particle arrays allocated with `np.empty(… Nparts_tot …)` -/
-def partAllocated : List (String × Option String) :=
-  %s
-
-/-- what each per-particle array is filled from (columns of the slab's `particles` dataset) -/
-def partSources : List (String × Src × Guard) :=
-  %s
-
-/-- every entry of the returned `particle_data` that is a local array: (key, local array, flag)
-(`pweights = 1 / pNp / psubsampling` and `pinds = _searchsorted_parallel(hid, phid)` are derived arrays) -/
-def partReturned : List (String × String × Guard) :=
-  %s
-
-/-- entries of `particle_data` that are constants: (key, "ones" for `np.ones(Nparts_tot)`, flag) -/
-def partDefaults : List (String × String × Guard) :=
-  %s
-
-/-- `params[...] = header[...]` -/
-def paramHeader : List (String × String) := [%s]
-
-/-- what is done with a 1-D velocity-deviate column: "stack-axis1" for `np.stack((v, v, v), axis=1)` -/
-def velDev1d : String := %s
-
-/-- the flags that guard any of the above -/
-def flagNames : List String := [%s]
-
-/-- all subsets of a list of flags -/
-def subsets : List String → List (List String)
-  | [] => [[]]
-  | f :: fs => subsets fs ++ (subsets fs).map (f :: ·)
-
-/-- every flag set -/
-def flagSets : List (List String) := subsets flagNames
-
-/-- `sortind = np.argsort(<sortKey>)`, guard and assert `np.all(hid[:-1] <= hid[1:])` -/
-def sortKey : String := %s
-
-/-- `side` of the `np.searchsorted(a, b[i])` call in `_searchsorted_parallel` -/
-def searchSide : String := %s
-
-def active (flags : List String) (c : Option String) : Bool :=
-  match c with
-  | none => true
-  | some f => flags.contains f
-
-def guardActive (flags : List String) : Guard → Bool
-  | .always => true
-  | .ifFlag f => flags.contains f
-  | .ifNot f => !(flags.contains f)
-
-def returnedVars (flags : List String) : List String :=
-  (returned.filter (fun e => active flags e.2.2)).map (·.2.1)
-
-def permutedVars (flags : List String) : List String :=
-  (permuted.filter (fun e => active flags e.2)).map (·.1)
-
-/-- the source expressions of array `v` under a flag set (the property needs exactly one) -/
-def sourcesOf (tab : List (String × Src × Guard)) (flags : List String) (v : String) : List Src :=
-  (tab.filter (fun e => e.1 == v && guardActive flags e.2.2)).map (·.2.1)
-
-end AbacusVerif.Generated.StagingCols
-''' % (triples(T['returned']), pairs(T['permuted']), pairs(T['allocated']), pairs(T['filled']),
-       sources(T['halo_sources']), pairs(T['part_allocated']), sources(T['part_sources']),
-       triples_g(T['part_returned']), triples_g(T['part_defaults']),
-       ', '.join('(%s, %s)' % (_lean_str(a), _lean_str(b)) for (a, b) in T['params']),
-       _lean_str(T['veldev1d']), ', '.join(_lean_str(f) for f in flags), _lean_str(T['sort_key']), _lean_str(T['search_side']))
+    ents = []
+    for e in D['entries']:
+        ents.append('  { flags := %s,\n    returned := %s,\n    permuted := %s,\n    haloSources := %s,\n    partSources := %s,\n    partDefaults := %s }' % (
+            _lean_strs(e['flags']), _lean_strs(e['returned']), _lean_strs(e['permuted']),
+            sources2(e['halo_sources']), sources2(e['part_sources']),
+            _lean_list('(%s, %s)' % (_lean_str(k), _lean_str(v)) for (k, v) in e['part_defaults'])))
+    A = T if T is not None else dict(returned=[], permuted=[], allocated=[], filled=[], halo_sources=[], part_sources=[],
+                                     part_returned=[], search_side='', veldev1d='')
+    subst = {
+        'FLAGNAMES': _lean_strs(FLAG_NAMES), 'ENTRIES': ',\n'.join(ents), 'SORTKEY': _lean_str(D['sort_key']),
+        'SEARCHSIDE': _lean_str(D['search_side']), 'VELDEV1D': _lean_str(D['veldev1d']),
+        'ASTAVAILABLE': 'true' if T is not None else 'false', 'ASTREASON': _lean_str(ast_reason or ''),
+        'ASTRETURNED': triples(A['returned']), 'ASTPERMUTED': pairs(A['permuted']), 'ASTALLOCATED': pairs(A['allocated']),
+        'ASTFILLED': pairs(A['filled']), 'ASTHALOSOURCES': sources3(A['halo_sources']), 'ASTPARTSOURCES': sources3(A['part_sources']),
+        'ASTPARTRETURNED': '[' + ',\n   '.join('(%s, %s, %s)' % (_lean_str(k), _lean_str(v), _lean_guard(_guard_of(c)))
+                                               for (k, v, c) in A['part_returned']) + ']',
+        'ASTSEARCHSIDE': _lean_str(A['search_side']), 'ASTVELDEV1D': _lean_str(A['veldev1d']),
+    }
+    text = LEAN_TEMPLATE.read_text()
+    for k, v in subst.items():
+        text = text.replace('«%s»' % k, v)
+    return text
 
 
 _TABLES = {}
 
 
+def _strip_asint(src):
+    if src[0] == 'asint':
+        return _strip_asint(src[1])
+    if src[0] in ('div', 'invProd'):
+        return (src[0], _strip_asint(src[1]), _strip_asint(src[2]))
+    if src[0] == 'mulParam':
+        return ('mulParam', _strip_asint(src[1]), src[2])
+    return src
+
+
+def _g_active(flags, g):
+    return g == ALWAYS or (g[0] == 'if' and g[1] in flags) or (g[0] == 'ifnot' and g[1] not in flags)
+
+
 def extract(ctx):
-    src = (vcommon.REPO / SRC).read_text()
+    # ---- primary: observed tables
+    D = observe_tables(ctx)
+    _TABLES['D'] = D
+    for pr in D['problems']:
+        ctx.tie('staging-observed', pr)
+    if len(D['entries']) != 2 ** len(FLAG_NAMES):
+        ctx.tie('staging-observed', 'only %d of %d flag subsets could be observed' % (len(D['entries']), 2 ** len(FLAG_NAMES)))
+    if D['search_side'] != 'left':
+        ctx.tie('staging-observed', "pinds is the %r insertion point: the model's searchsortedLeft does not mirror the code" % D['search_side'])
+    if D['veldev1d'] != 'stack-axis1':
+        ctx.tie('staging-observed', '1-D velocity deviates come out as %r; the model mirrors one deviate per halo on the three axes' % D['veldev1d'])
+    if D['sort_key'] != 'hid':
+        ctx.tie('staging-observed', 'returned ids are not in ascending order on the probe')
+    # ---- secondary, optional: what the source text says, when it can be read
+    T, reason = None, None
     try:
-        T = extract_tables(src)
-    except TieError as e:
-        ctx.tie('staging-translator', str(e))
-        _TABLES['error'] = str(e)
-        return
+        T = extract_tables((vcommon.REPO / SRC).read_text())
+    except (TieError, Untranslatable, SyntaxError) as e:
+        reason = '%s: %s' % (type(e).__name__, e)
     _TABLES['T'] = T
-    if T['search_side'] != 'left':
-        ctx.tie('staging-translator', "np.searchsorted side=%r: the model's searchsortedLeft no longer mirrors the code" % T['search_side'])
-    # every returned array must be allocated and filled under a compatible flag
-    for (k, v, c) in T['returned']:
-        for tab in ('allocated', 'filled'):
-            if not any(v == v2 and (c2 is None or c2 == c) for (v2, c2) in T[tab]):
-                ctx.tie('staging-translator', 'halo_data[%r] = %s is not %s under flag %s' % (k, v, tab, c))
-        if k != v:
-            ctx.count('translator:key!=var')
-    # what the translator could not turn into a source expression
-    for note in T['notes']:
-        ctx.tie('staging-translator', note)
-    if T['veldev1d'] != 'stack-axis1':
-        ctx.tie('staging-translator', '1-D velocity-deviate branch is %r, the model mirrors np.stack((v, v, v), axis=1)' % T['veldev1d'])
-    for tab, ret in (('halo_sources', [(v, _guard_of(c)) for (_, v, c) in T['returned']]),
-                     ('part_sources', [(v, _guard_of(c)) for (_, v, c) in T['part_returned'] if v not in ('pweights', 'pinds')]
-                      + [('pNp', ALWAYS), ('psubsampling', ALWAYS)])):
-        for (v, g) in ret:
-            srcs = [(src, sg_) for (v2, src, sg_) in T[tab] if v2 == v]
-            if not srcs:
-                ctx.tie('staging-translator', 'no source expression for returned array %s' % v)
-    text = render_lean(T)
+    if T is None:
+        ctx.extra['staging_ast_translator'] = 'unavailable (%s)' % reason
+        ctx.count('ast-translator:unavailable')
+    else:
+        ctx.count('ast-translator:available')
+        ctx.extra['staging_ast_translator'] = {'available': True, 'untranslated': T['notes']}
+        # interpreted facts must be coherent and must agree with what was observed
+        for (k, v, c) in T['returned']:
+            for tab in ('allocated', 'filled'):
+                if not any(v == v2 and (c2 is None or c2 == c) for (v2, c2) in T[tab]):
+                    ctx.tie('staging-ast', 'halo_data[%r] = %s is not %s under flag %s' % (k, v, tab, c))
+        if T['search_side'] != D['search_side']:
+            ctx.tie('staging-ast', 'source says searchsorted side=%r, observed %r' % (T['search_side'], D['search_side']))
+        if T['veldev1d'] not in ('absent', D['veldev1d']):
+            ctx.tie('staging-ast', 'source 1-D velocity-deviate branch %r, observed %r' % (T['veldev1d'], D['veldev1d']))
+        for e in D['entries']:
+            fl = e['flags']
+            act = [(k, v) for (k, v, c) in T['returned'] if c is None or c in fl]
+            if [k for k, _ in act] != e['returned']:
+                ctx.tie('staging-ast', 'flags %s: source returns %s, observed %s' % (fl, [k for k, _ in act], e['returned']))
+            perm_vars = {v for (v, c) in T['permuted'] if c is None or c in fl}
+            ast_perm = [k for k, v in act if v in perm_vars]
+            if sorted(ast_perm) != sorted(e['permuted']):
+                ctx.tie('staging-ast', 'flags %s: source permutes %s, observed in id order %s' % (fl, ast_perm, e['permuted']))
+            for k, v in act:
+                srcs = [_strip_asint(src) for (v2, src, g) in T['halo_sources'] if v2 == v and _g_active(fl, g)]
+                obs = [src for (k2, src) in e['halo_sources'] if k2 == k]
+                if srcs and srcs != obs:
+                    ctx.tie('staging-ast', 'flags %s: source fills %s from %s, observed %s' % (fl, k, srcs, obs))
+            for (k, v, c) in T['part_returned']:
+                if not _g_active(fl, _guard_of(c)):
+                    continue
+                srcs = [_strip_asint(src) for (v2, src, g) in T['part_sources'] if v2 == v and _g_active(fl, g)]
+                obs = [src for (k2, src) in e['part_sources'] if k2 == k]
+                if srcs and srcs != obs:
+                    ctx.tie('staging-ast', 'flags %s: source fills particle_data[%r] from %s, observed %s' % (fl, k, srcs, obs))
+    text = render_lean(D, T, reason)
     _TABLES['text'] = text
     if not GEN.exists() or GEN.read_text() != text:
         GEN.write_text(text)
         ctx.count('translator:regenerated')
-    ctx.extra['translator'] = {
-        'returned': [list(e) for e in T['returned']], 'permuted': [list(e) for e in T['permuted']],
-        'not_permuted': [v for (_, v, c) in T['returned'] if not any(v == p and (pc is None or pc == c) for (p, pc) in T['permuted'])],
-        'flags': T['flags'], 'search_side': T['search_side']}
+    ctx.extra['observed'] = {
+        'flag_subsets': len(D['entries']), 'sort_key': D['sort_key'], 'search_side': D['search_side'], 'veldev1d': D['veldev1d'],
+        'not_in_id_order': {','.join(e['flags']) or '-': [k for k in e['returned'] if k not in e['permuted']]
+                            for e in D['entries'] if any(k not in e['permuted'] for k in e['returned'])}}
 
 
 # =========================================================================== running the real code
@@ -700,7 +845,7 @@ def run_impl(ctx, case, full=False):
         except Exception as e:   # what the real code raises on this file set
             return {'err': type(e).__name__, 'msg': str(e)[:200]}
         res = {'halo': {k: np.array(v) for k, v in hd.items()}, 'part': {k: np.array(v) for k, v in pd.items()},
-               'numslabs': int(params['numslabs'])}
+               'numslabs': int(params['numslabs']), 'params': dict(params)}
         del o, hd, pd
         return res
     finally:
@@ -725,13 +870,11 @@ def fmt_ids(ids):
 
 
 def param_values():
-    """`params[...]` values the source expressions use, through the generated `params[X] = header[Y]` table"""
-    T = _TABLES.get('T')
-    pairs = T['params'] if T else [('Mpart', 'ParticleMassHMsun'), ('Lbox', 'BoxSize')]
-    return [(p, sg.HEADER[h]) for (p, h) in pairs if h in sg.HEADER]
-
-
-PART_RANK_FIELDS = ['ranks', 'ranksv', 'ranksp', 'ranksr', 'ranksc']
+    """`params[...]` values the source expressions may use: what the real staging() returned in `params` on the probe"""
+    D = _TABLES.get('D')
+    if D and D.get('params'):
+        return [(k, v) for (k, v) in D['params'] if float(v * sg.UNIT).is_integer()]
+    return [('Mpart', sg.MPART), ('Lbox', sg.BOX)]
 
 
 def model_line(case):
@@ -771,7 +914,7 @@ def parse_col(s):
 def parse_model(s):
     if s.startswith('err ') or s == 'bad-op':
         return {'err': s}
-    out = {'halo': {}, 'part': {}, 'aux': {}}
+    out = {'halo': {}, 'part': {}}
     for tok in s.split(' ')[1:]:
         if not tok:
             continue
@@ -784,8 +927,6 @@ def parse_model(s):
             out['halo'][k[2:]] = parse_col(v)
         elif k.startswith('p:'):
             out['part'][k[2:]] = parse_col(v)
-        elif k.startswith('aux:'):
-            out['aux'][k[4:]] = parse_col(v)
     return out
 
 
@@ -800,8 +941,6 @@ def canon_impl(res):
     for k, v in res['part'].items():
         if k in ('phid', 'pinds'):
             out[k] = [int(x) for x in v]
-        elif k == 'pweights':
-            out['pweights'] = [Fraction(float(x)) for x in v]
         else:
             out['part'][k] = sg.to_units(v)
     return out
@@ -820,18 +959,7 @@ def compare(ctx, case, m, res, label):
         return
     mm = {'numslabs': m['numslabs'], 'hid': m['hid'], 'phid': m['phid'], 'pinds': m['pinds'], 'halo': m['halo'],
           'part': m['part']}
-    # pweights = 1 / pNp / psubsampling, from the model's filled (not returned) arrays
-    np_, ps_ = m['aux'].get('pNp'), m['aux'].get('psubsampling')
-    if np_ is None or ps_ is None:
-        ctx.disagree('staging[%s] the model has no pNp / psubsampling arrays' % label, case, sorted(m['aux']), 'pweights')
-        return
-    try:
-        mm['pweights'] = [Fraction(sg.UNIT, a[0]) * Fraction(sg.UNIT, b[0]) for a, b in zip(np_, ps_)]
-    except (TypeError, ZeroDivisionError):
-        mm['pweights'] = 'inexact'
-    if sorted(m['aux']) != ['pNp', 'psubsampling']:
-        ctx.disagree('staging[%s] arrays filled but not returned' % label, case, sorted(m['aux']), ['pNp', 'psubsampling'])
-    for k in ('numslabs', 'hid', 'phid', 'pinds', 'pweights'):
+    for k in ('numslabs', 'hid', 'phid', 'pinds'):
         if mm[k] != im.get(k):
             ctx.disagree('staging[%s] %s' % (label, k), case, str(mm[k])[:300], str(im.get(k))[:300])
     for side in ('halo', 'part'):
